@@ -225,6 +225,14 @@ class Ctx:
         """translate + make the given .vo targets (paths relative to coq/).
         Returns (ok, log).  On success the Print Assumptions output of the
         property files is parsed and the lemma count recorded."""
+        ok, log = self._coq_build(targets, timeout)
+        if any(t.startswith("props/") for t in targets):
+            # remembered for finish(): a property closure that does not build is reported by the framework itself
+            # unless the module reports it (or a NEW failing input); a known finding never hides it
+            self.props_failed = None if ok else log
+        return ok, log
+
+    def _coq_build(self, targets, timeout=900):
         t0 = time.time()
         with open(os.path.join(BUILD, ".lock"), "w") as lk:
             fcntl.flock(lk, fcntl.LOCK_EX)
@@ -296,6 +304,16 @@ class Ctx:
         known = load_known()
         rc = 0
         nviol = 0
+
+        def listed(f):
+            k = known.get((self.pid, f["sig"]))
+            return bool(k and k["status"] == "known" and f["has_input"])
+        if getattr(self, "props_failed", None) and not any(
+                f["sig"] == "proof-broken" or not listed(f) for f in self.failures):
+            log = self.props_failed
+            self.failures.append(dict(sig="proof-broken", what="theorem closure of props/%s.v no longer builds (only listed known findings "
+                                      "were raised by the check, so the framework reports it): %s" % (self.pid, log[-2500:]),
+                                      replay=dict(log=log[-6000:]), has_input=False, count=1))
         for f in self.failures:
             k = known.get((self.pid, f["sig"]))
             if k and k["status"] == "known" and f["has_input"]:
